@@ -81,6 +81,14 @@ Definition stmt_soc_W_symmetric : Prop :=
   forall w eta x y b b', length x = length w -> length y = length w ->
     length b = length w -> length b' = length w ->
     rdot (soc_mul_W OpsR w eta x 1 0 b) y = rdot x (soc_mul_W OpsR w eta y 1 0 b').
+(** the gemv contract for every α, β and every output buffer:  y <- α·(W x) + β·y, where W x is
+    the result for α = 1, β = 0 (same for W⁻¹); no normalisation needed *)
+Definition stmt_soc_mul_W_affine : Prop :=
+  forall w eta x a b y, (1 <= length w)%nat -> length x = length w -> length y = length w ->
+    soc_mul_W OpsR w eta x a b y
+    = rmap2 (fun p q => a * p + b * q) (soc_mul_W OpsR w eta x 1 0 y) y /\
+    soc_mul_Winv OpsR w eta x a b y
+    = rmap2 (fun p q => a * p + b * q) (soc_mul_Winv OpsR w eta x 1 0 y) y.
 Definition stmt_soc_Hs_formula : Prop :=
   forall w eta x, length x = length w -> soc_mul_Hs OpsR w eta x = hs_spec w eta x.
 Definition stmt_soc_Hs_is_WW : Prop :=
